@@ -116,15 +116,26 @@ def F_restrict_native(ctx, lib, rule, only=None):
     """only: optional set of fn quals to attribute to the calling property"""
     n = 0
     seen = set()
+    # helpers: local non-closure functions outside obdd.rs that call Bdd::restrict themselves (an extracted fold step); a fold closure that calls such a helper is
+    # a restriction site like one that calls restrict directly (the table engine inlines the helper)
+    helpers = set()
+    for hb in lib.all_bodies:
+        if hb.kind != "closure" and not (hb.file or "").endswith("obdd.rs") and any(ir.callee_path(ci) == RESTRICT for _, _, ci in hb.calls()):
+            helpers.add(hb.path)
+    sites = []
     for b in lib.all_bodies:
         if (b.file or "").endswith("obdd.rs"):
             continue
         for bb, t, ci in b.calls():
-            if ir.callee_path(ci) != RESTRICT:
-                continue
+            if ir.callee_path(ci) == RESTRICT or (b.kind == "closure" and ir.callee_path(ci) in helpers):
+                sites.append((b, bb, t, ci))
+    for b, bb, t, ci in sites:
+        if True:
             q = b.qual
             if only is not None and q not in only:
                 continue
+            if b.kind != "closure" and b.path in helpers and q not in DECIDE_ONE and q not in NATIVE_SITES:
+                continue   # the helper itself: examined through the closure(s) that call it
             n += 1
             where = b.where(t.get("loc"))
             if q in DECIDE_ONE:
